@@ -7,7 +7,7 @@ PROP = 'C03'
 
 def make(rd, tier, seed, ev):
     fam = gen_problems.causal_family()
-    gen = plancheck.write_problems(rd, [(n, t) for n, t, ok in fam]) + plancheck.feature_problems(rd, ['causal', 'inheritance', 'multisuper', 'impossible', 'unify'], seed, tier)[0]
+    gen = plancheck.write_problems(rd, [(n, t) for n, t, ok in fam]) + plancheck.feature_problems(rd, ['causal', 'inheritance', 'multisuper', 'impossible', 'unify', 'deepchain'], seed, tier)[0]
     repo = plancheck.repo_problems()
     if tier == 'quick':
         repo = [p for p in repo if not p[0].startswith(('GOAC', 'Matera'))] + [p for p in repo if p[0] in ('GOAC_2Pic_2Wind', 'GOAC_3Pic_1Wind', 'Matera_05')]
